@@ -191,6 +191,31 @@ def check(res, rng, dump, cfg, unfiltered, other_dump):
             res.count('configurations_hiding_helper_traces')
 
 
+def check_cli(res, rng, dump, cfg):
+    """The `traces` command with the same filters, written in any notation the options accept, prints the lines the
+    library formats for that request."""
+    from vlib import cli
+    if cfg['tid'] is not None and cfg['tid'] < 0:
+        return
+    classes, subs = list(cfg['classes']), list(cfg['subs'])
+    out, exc, args = cli.run('traces', dump['data'], tid=cfg['tid'], process=cfg['process'], classes=classes, subs=subs,
+                             color=False, rng=rng)
+    case = {'file': dump['data'], 'args': args}
+    if exc is not None:
+        res.violation(f'c13-cli-raises-{core.exc_name(exc)}', f'`traces {" ".join(args)}`: {exc!r}', case)
+        return
+    try:
+        want = cli.api('traces', dump['data'], tid=cfg['tid'], process=cfg['process'], classes=classes, subs=subs, color=False)
+    except Exception as x:
+        res.violation(f'c13-raises-{core.exc_name(x)}', f'{x!r}', case)
+        return
+    res.count('cli_requests_compared')
+    if out != ''.join(l + '\n' for l in want):
+        res.violation('c13-cli-differs-from-api', f'`traces {" ".join(args)}` prints {len(out.splitlines())} lines, the library '
+                      f'formats {len(want)} for tid={cfg["tid"]} classes={classes} subclasses={[hex(x) for x in subs]} '
+                      f'process={cfg["process"]!r}', case)
+
+
 def check_reconfigured(res, rng, dump, unfiltered):
     """One front-end object whose settings are changed between requests - any non-empty subset of the four, the rest
     left as set: every request honours the settings as they are at that moment."""
@@ -298,6 +323,8 @@ def run(ctx):
                 cfg['tid'] = None      # the table model replays the whole stream; with a tid filter other threads'
                 res.count('process_filters_on_dumps_with_map_updates')   # map updates would not be consumed
             check(res, rng, dump, cfg, unfiltered, prev)
+            if i % 3 == 0:
+                check_cli(res, rng, dump, cfg)
         check_reconfigured(res, rng, dump, unfiltered)
         prev = dump
     if ctx.shard == 0:
@@ -319,6 +346,7 @@ def run(ctx):
     res.require('formatted_requests_compared', 10)
     res.require('process_filters_on_dumps_with_map_updates', 10)
     res.require('reconfigured_requests', 20)
+    res.require('cli_requests_compared', 20)
     res.require('long_capture_traces_selected', 100)
     return res
 
